@@ -98,12 +98,16 @@ def run(ctx):
             ctx.violation('c05-routing', 'a leaf was not fitted on exactly the rows / columns routed to it', replay=rep)
         # correspondence with the queue machine (same script, discipline as extracted from the source)
         if ctx.driver_ok:
-            lean = ctx.get_driver().ask(dict(op='learn', n_rows=n_rows, n_cols=n_cols, min_rows_slice=min_rows, min_cols_slice=min_cols,
-                                             front=front, script=s.log))
+            try:
+                lean = ctx.get_driver().ask(dict(op='learn', n_rows=n_rows, n_cols=n_cols, min_rows_slice=min_rows, min_cols_slice=min_cols,
+                                                 front=front, script=s.log))
+            except Infra as ex:
+                # the machine asked its oracle a different question than the implementation did: the consultation order differs
+                lean = 'script-mismatch: ' + str(ex)[:160]
             if L.blur_unknown(lean, txt) != txt:
                 ctx.violation('c05-machine-disagrees', f'learn_spn result differs from the queue machine\n impl : {txt[:300]}\n model: {lean[:300]}',
                               replay=rep, found_input=False)
-        if ctx.n_new() >= 3:
+        if ctx.n_new(with_input_only=True) >= 3:
             return
     # classifier wrapper: root weights = class frequencies, children in np.unique order
     rng0 = random.Random(ctx.seed + 17)
